@@ -104,6 +104,14 @@ def gen(ctx):
                               label="failing user-space write"))
             cases.append(Case(64 * B, data=[(0, B), (20 * B, 24 * B), (60 * B, 64 * B)], driver=driver, workers=2, bs=bs, reflink="never",
                               plan=[("fail", EIO, 0, "copy_file_range", 2, "{dst}")], label="failing kernel copy, sparse source"))
+    # no kernel copy at all (ENOSYS / EXDEV for every request): every transfer goes through the user-space loops — under the block
+    # driver several jobs of ONE file run at once on one pair of descriptors, threads held at random
+    for errno in (ENOSYS, 18):
+        for (w, sd) in (((4, 1), (8, 2)) if quick else ((2, 1), (4, 2), (4, 3), (8, 4), (8, 5), (16, 6))):
+            c = Case(64 * B + 123, driver="parblock", workers=w, bs=B, reflink="never", plan=[("fail", errno, 0, "copy_file_range", 0, "{dst}")],
+                     label="no kernel copy, %d workers, 65 blocks" % w)
+            c.seed = sd * 1000 + w
+            cases.append(c)
     # ... and when OPENING or creating the file failed: nothing at the destination is a file that `differs`
     for driver in ("parfile", "parblock"):
         for (errno, which) in [(2, "{dst}"), (2, "{src}"), (13, "{dst}"), (24, "{src}"), (20, "{dst}")]:
@@ -149,6 +157,8 @@ def run(ctx, out):
     datapath.run_cases(ctx, out, gen(ctx), "C01", oracle, nontrivial)
     run_several_sources(ctx, out)
     run_unreachable_and_vanishing(ctx, out)
+    import destmatrix
+    destmatrix.run_parent_missing(ctx, out, "C01", sources=["file"])
 
 
 def run_unreachable_and_vanishing(ctx, out):
